@@ -95,22 +95,14 @@ Proof.
     { intros g Hg. pose proof (decoded_row_length fb HF Hq k g Hk Hg) as Hl.
       pose proof (decoded_row_cells fb HF Hq k g Hk Hg) as Hc. rewrite <- Hrow in Hl, Hc.
       unfold row_of_run in Hl, Hc. destruct (rlookup r g) as [row|]; [exists row; auto | cbn in Hl; lia]. }
-    destruct (has_derived fb) eqn:Ehd.
-    + (* derived factors: one crossing, the constraints decide *)
-      destruct (f0_derived_single fb (f0_unpack fb HF) Ehd) as [Hone _].
-      assert (Ho : f0_ocrossings fb = []).
-      { unfold f0_ocrossings. rewrite (f0_crossings fb (f0_unpack fb HF)) in Hone. cbn in Hone.
-        destruct (tl (fl_crossings fb)); [reflexivity | cbn in Hone; lia]. }
-      rewrite Ho. cbn [forallb andb].
-      assert (Hwf : forall g, In g (fl_act fb) -> exists row, rlookup r g = Some row /\ length row = fl_trials fb).
-      { intros g Hg. destruct (Hcells g Hg) as (row & H1 & H2 & _). exists row. auto. }
-      rewrite (f1_violated fb HF r Hwf en eq_refl Hone). rewrite negb_involutive. reflexivity.
-    + rewrite (f2_violated fb HF m lm cn lcn r Hcells Ehd). rewrite negb_involutive. reflexivity.
+    rewrite (f2_violated fb HF m lm cn lcn r Hcells); [rewrite negb_involutive; reflexivity|].
+    intros Hk1. destruct (has_derived fb) eqn:Ehd; [|reflexivity].
+    destruct (f0_derived_single fb (f0_unpack fb HF) Ehd) as [Hone _]. lia.
   - (* one crossing, and no constraint is ever evaluated on a row *)
-    assert (Ho : f0_ocrossings fb = []).
-    { unfold f0_ocrossings. rewrite (f0_crossings fb (f0_unpack fb HF)) in Hone. cbn in Hone.
-      destruct (tl (fl_crossings fb)); [reflexivity | cbn in Hone; lia]. }
-    rewrite Ho. cbn [forallb andb].
+    rewrite (f0_ocrossings_single fb HF Hone). cbn [forallb andb]. rewrite andb_true_r.
+    assert (Hsh : sustain_held fb (tseq_of_run fb r) = true).
+    { unfold sustain_held. apply forallb_forall. intros f _. rewrite (f0_sustain_single fb HF f Hone). reflexivity. }
+    rewrite Hsh. cbn [andb].
     unfold no_rejecting_constraints in Hnr. rewrite forallb_forall in Hnr.
     assert (Hs : s_constraints S0 = []).
     { rewrite (f0_sem_constraints fb HF). induction (fl_constraints fb) as [|x t IH]; [reflexivity|].
@@ -256,10 +248,11 @@ Proof.
   unfold cand_fseq. rewrite Hd. unfold cand_seq. rewrite (f0_valid_base fb HF Hq k Hk r Hrow).
   unfold rejection_free in Hrf. apply andb_prop in Hrf. destruct Hrf as [Hrf Hnd].
   apply andb_prop in Hrf. destruct Hrf as [Hrf Hone]. apply Nat.leb_le in Hone.
-  assert (Ho : f0_ocrossings fb = []).
-  { unfold f0_ocrossings. rewrite (f0_crossings fb (f0_unpack fb HF)) in Hone. cbn in Hone.
-    destruct (tl (fl_crossings fb)); [reflexivity | cbn in Hone; lia]. }
-  rewrite Ho. cbn [forallb andb].
+  assert (Hone' : length (fl_crossings fb) = 1) by (pose proof (f0_main_lt fb (f0_unpack fb HF)); lia).
+  rewrite (f0_ocrossings_single fb HF Hone'). cbn [forallb andb]. rewrite andb_true_r.
+  assert (Hsh : sustain_held fb (tseq_of_run fb r) = true).
+  { unfold sustain_held. apply forallb_forall. intros f _. rewrite (f0_sustain_single fb HF f Hone'). reflexivity. }
+  rewrite Hsh. cbn [andb].
   rewrite (f0_sem_constraints fb HF). apply forallb_forall. intros dc Hdc.
   apply in_flat_map in Hdc. destruct Hdc as [x [Hx Hdc]].
   rewrite forallb_forall in Hrf. pose proof (Hrf x Hx) as Hk'.
@@ -338,12 +331,9 @@ Proof.
       { intros g Hg. pose proof (decoded_row_length fb HF Hq k g Hk Hg) as Hl.
         pose proof (decoded_row_cells fb HF Hq k g Hk Hg) as Hc. rewrite <- Hrow in Hl, Hc.
         unfold row_of_run in Hl, Hc. destruct (rlookup r g) as [row|]; [exists row; auto | cbn in Hl; lia]. }
-      destruct (has_derived fb) eqn:Ehd.
-      * destruct (f0_derived_single fb (f0_unpack fb HF) Ehd) as [Hone _].
-        assert (Hwf : forall g, In g (fl_act fb) -> exists row, rlookup r g = Some row /\ length row = fl_trials fb).
-        { intros g Hg. destruct (Hcells g Hg) as (row & H1 & H2 & _). exists row. auto. }
-        rewrite (f1_violated fb HF r Hwf (f0_enum fb m lm cn lcn) eq_refl Hone) in Ev. discriminate.
-      * rewrite (f2_violated fb HF m lm cn lcn r Hcells Ehd) in Ev. discriminate.
+      rewrite (f2_violated fb HF m lm cn lcn r Hcells) in Ev; [discriminate|].
+      intros Hk1. destruct (has_derived fb) eqn:Ehd; [|reflexivity].
+      destruct (f0_derived_single fb (f0_unpack fb HF) Ehd) as [Hone _]. lia.
     + unfold no_rejecting_constraints in Hnr. rewrite forallb_forall in Hnr.
       assert (H : (fix go (cs : list fconstraint) : rres bool :=
                      match cs with
